@@ -176,7 +176,7 @@ func checkC05(r *Result) []Violation {
 			if k >= len(evs) {
 				// must have been reported by the next quiescent point
 				for _, e := range r.Hist {
-					if e.C == ci && e.Step > step && (e.K == KSrvClose || e.K == KFin || e.K == KRst) {
+					if e.C == ci && e.Step > step && (e.K == KFin || e.K == KRst) {
 						break
 					}
 					if e.C == ci && e.K == KQuiet && e.Step > step {
@@ -215,7 +215,7 @@ func checkC05(r *Result) []Violation {
 }
 
 func init() {
-	register(&propDef{ID: "C05", Gen: genC05, Check: checkC05, Foreign: foreignCrashExcept("completePack"),
+	register(&propDef{ID: "C05", Gen: genC05, Check: withCrashRule("C05", checkC05),
 		Interesting: func(r *Result) bool {
 			for _, e := range r.Hist {
 				if (e.K == KRead || e.K == KNotSup) && e.Complete && e.SubSum > 1 {
